@@ -19,6 +19,8 @@ try:
         how = 'rebased onto the repaired tree with git apply -3'
     if override:
         how = 'mechanism re-implemented by hand on the repaired tree (the function it touched was rewritten by a fix)'
+    # (new files the change adds must be part of the stored patch)
+    subprocess.check_call(['git', 'add', '-A', '-N', '.'], cwd=w)
     diff = subprocess.check_output(['git', 'diff', 'HEAD'], cwd=w)
     open(os.path.join(dst, 'patch.diff'), 'wb').write(diff)
 finally:
